@@ -8,6 +8,7 @@ import FeatModel.Lemmas.C16_blocked
 import FeatModel.Lemmas.C16_history
 import FeatModel.Lemmas.C16_local
 import FeatModel.Lemmas.C16_trace
+import FeatModel.Model.Hooks
 /-!
 # C16 — property theorems (statements only; proofs live in Lemmas/C16_*.lean)
 
@@ -506,3 +507,39 @@ theorem C16.trace_facet_integral_exact (r : Rule) (k : FeatModel.FE.Kind) (l : N
     · exact C16.trace_orientation_consistent.2
     · exact C16.trace_orientation_consistent.1
   exact C16L.facetEntry_exact r k l π c Df P hl hπ hcons hc hdet simplex ms hex hF
+
+/-! ### per-cell operator hooks (user-defined operators with state in `prepare()` / `finish()`) -/
+
+/-- **hooks_cellwise**: on every route the integrand of cell `T` is evaluated with the coefficient of cell `T`: the scatter
+calls of the stateful hook loop (state overwritten by `prepare`, poisoned by `finish`) are the per-cell calls, for every
+incoming evaluator state, every poison value and every sequence of cells. A route that calls `prepare` before the trafo
+evaluator knows the cell (and so reads another cell's or no coefficient) disagrees with this model. -/
+theorem C16.hooks_cellwise {α : Type} [Mul α] [OfNat α 1] (coef : Nat → α) (poison st : α) (cells : List (HookCell α)) :
+    hookLoop coef poison st cells = cells.map (hookCall coef) := by
+  induction cells generalizing st with
+  | nil => rfl
+  | cons c t ih => simp only [hookLoop, List.map_cons, hookCall, ih]
+
+/-- **hooks_routes_agree**: with a per-cell coefficient, any two cell orders (classic loop, Job1, Job2, …) give the same
+assembled operator, and it is `Σ_T c_T · P_Tᵀ base_T P_T` -/
+theorem C16.hooks_routes_agree {α : Type} [CommRing α] (nT nS : Nat) (tm sm : List (List Nat)) (g : Graph)
+    (hg : symbolicGraph2 nT nS tm sm = some g)
+    (hT : ∀ l ∈ tm, ∀ r ∈ l, r < nT) (hS : ∀ l ∈ sm, ∀ s ∈ l, s < nS)
+    (coef : Nat → α) (poison st1 st2 : α) (cells1 cells2 : List (HookCell α)) (hperm : cells1.Perm cells2)
+    (hcells : ∀ c ∈ cells1, ∃ k, c.rowMap = tm.getD k [] ∧ c.colMap = sm.getD k []) :
+    ∃ s1 s2, assemble (Pattern.ofGraph g) (hookLoop coef poison st1 cells1) = some s1 ∧
+      assemble (Pattern.ofGraph g) (hookLoop coef poison st2 cells2) = some s2 ∧
+      ∀ (x : Nat → α) (r : Nat), (Pattern.ofGraph g).apply s1.data x r = (Pattern.ofGraph g).apply s2.data x r ∧
+        (Pattern.ofGraph g).apply s1.data x r = (cells1.map fun c => (1 : α) * (hookCall coef c).contrib x r).sum := by
+  rw [C16.hooks_cellwise, C16.hooks_cellwise]
+  have hc1 : ∀ c ∈ cells1.map (hookCall coef), ∃ k, c.rowMap = tm.getD k [] ∧ c.colMap = sm.getD k [] := by
+    intro c hc
+    obtain ⟨c', hc', rfl⟩ := List.mem_map.mp hc
+    exact hcells c' hc'
+  obtain ⟨s1, s2, h1, h2, hsem⟩ := C16.routes_agree nT nS tm sm g hg hT hS _ _ (hperm.map (hookCall coef)) hc1
+  obtain ⟨s1', h1', _, sem1⟩ := C16.assembled_eq_sum nT nS tm sm g hg hT hS (cells1.map (hookCall coef)) hc1
+  rw [h1] at h1'
+  cases h1'
+  refine ⟨s1, s2, h1, h2, fun x r => ⟨hsem x r, ?_⟩⟩
+  rw [sem1, List.map_map]
+  rfl
